@@ -180,7 +180,46 @@ def c08(chk, thorough):
     chk.floor('DF.dead-input', 2)
 
 
+def c10(chk, thorough):
+    from . import guards
+    chk.explanation = (
+        'Decides the guard, missing-value, dispatch and delegation clauses of C10: (a) every division by a column-scaling cell '
+        'is in the false arm of ApproxEq(cell, 0) whose true arm stores exactly 0 (columns without spread become 0, not NaN/Inf); '
+        '(b) in MatrixColAverage/SDEV/RMS/Var/ColumnMinMax every element read and counter increment is control-dependent on '
+        '"not MISSING"; (E6b) MatrixPreprocess has a distinct explicit arm for options 1..5, a >= 0 gate for centring, and '
+        'TensorPreprocess delegates block by block with the same option. NOT decided: zero means, unit spread, the value each '
+        'option promises, round-trip equality, the fit/apply tolerance mismatch (outside the quantifier).')
+    chk.assumptions = ['ApproxEq is recognised structurally as ((v-e) < x) && (x < (v+e)); MISSING is the literal defined in numeric.h']
+    prog = load_program(chk, ['preprocessing.c', 'matrix.c', 'pca.c', 'cpca.c', 'clustering.c', 'vector.c'])
+    n = guards.zero_divisor(chk, prog, {'preprocessing.c', 'pca.c', 'cpca.c', 'clustering.c'})
+    if n < 5:
+        chk.broke('only %d divisions by a column-scaling cell found, floor 5' % n)
+    guards.missing_guard(chk, prog, {'matrix.c': guards.STAT_FUNCS['matrix.c']})
+    guards.preprocess_options(chk, prog)
+    chk.floor('G.missing', 5)
+    chk.floor('G.options', 7)
+
+
+def c15(chk, thorough):
+    from . import guards, layout
+    chk.explanation = (
+        'Decides the missing-value and table-layout clauses of C15: in R2/MAE/MSE/BIAS every element read and every counter '
+        'increment is control-dependent on "the truth element is not MISSING"; RMSE is sqrt(MSE) of its own arguments; the PLS '
+        'statistic tables read truth column j and prediction column q*lv+j and store cell (lv, j) (index-role typing). NOT '
+        'decided: any numeric identity (R2 <= 1, MAE <= RMSE, ROC monotonicity, Mann-Whitney equality, invariances).')
+    chk.assumptions = ['ApproxEq/MISSING recognised structurally; role seeds of lsv/layout.py']
+    prog = load_program(chk, ['statistic.c', 'pls.c', 'mlr.c'])
+    guards.missing_guard(chk, prog, {'statistic.c': guards.STAT_FUNCS['statistic.c']})
+    guards.rmse_reaches_mse(chk, prog)
+    layout.run(chk, prog, {'pls.c': ['PLSRegressionStatistics', 'PLSDiscriminantAnalysisStatistics']})
+    chk.floor('G.missing', 4)
+    chk.floor('G.rmse', 1)
+    chk.floor('LY.subscript', 10)
+
+
 CHECKS = {
+    'C10': c10,
+    'C15': c15,
     'C08': c08,
     'C16': c16,
     'C05': c05,
